@@ -13,7 +13,9 @@ Pipeline
      configuration or "reject"; after `instantiate_classes`: type() is exactly the named class, every spec constructed
      once, children before parents and passed as objects, attribute values, a second run builds distinct objects;
      metamorphic: every short notation of a valid spec parses to the same configuration as the explicit dict;
-     List / Dict / Optional / Union-of-class parameters are checked by the oracle only (outside the model).
+     List / Dict / Optional / Union-of-class parameters are checked by the oracle only (outside the model), including
+     Dict[str, Base] / List[Base] arguments fed by SEVERAL sources (explicit class per key / item first, short forms later:
+     every key / item must keep its own earlier class and init_args).
   4. open findings are replayed.
 """
 from __future__ import annotations
@@ -1375,6 +1377,194 @@ def run_container(ctx: Ctx, fam, valid, ia):
         ctx.nontrivial(json.dumps(["container", family_src(fam), j]))
 
 
+# ---------------------------------------------------------------------------------------------
+# Dict[str, Base] / List[Base] arguments with SEVERAL sources (oracle only): every key / item keeps ITS OWN earlier class
+# A container source is {"op": "set", "items": [[key, raw]] | [raw], "via": "argv"|"config"}
+#   | {"op": "key", "key": k, "raw": raw}            --table.k=<value>   (dict: the other keys stay)
+#   | {"op": "last", "param": name, "raw": scalar}   --elems.name=value   (list: an init arg of the last item)
+# ---------------------------------------------------------------------------------------------
+def strip_dk(raw):
+    if isinstance(raw, dict) and "name" not in raw and "bare" not in raw:
+        raw = dict(raw, dk=None)
+        if raw.get("ia"):
+            raw["ia"] = {k: strip_dk(v) for k, v in raw["ia"].items()}
+    return raw
+
+
+def short_form_for(rng, fam, st):
+    """init_args without class_path (or a bare dict) that are valid for the class the key / item already has"""
+    ps = [p for p in target_params(fam, st["t"]) if p["ty"][0] in ("scalar", "optScalar")]
+    kv = {}
+    for p in (rng.sample(ps, rng.randint(1, min(2, len(ps)))) if ps else []):
+        kv[p["name"]] = rng.choice(SCALARS[p["ty"][1]])
+    return {"bare": kv} if kv and rng.random() < 0.4 else {"cp": None, "ia": kv, "dk": None}
+
+
+def container_multi_cases(rng, fam):
+    out = []
+    T = "Base"
+    for ckind in ("dict", "list", "dict", "list"):
+        n = rng.randint(2, 3)
+        keys = rng.sample(["enc", "dec", "aux", "k1", "k2"], n)
+        try:
+            first = []
+            for _ in range(n):
+                raw = strip_dk(gen_spec_raw(rng, fam, T))
+                first.append(raw)
+            states = [ref_apply(fam, T, None, r) for r in first]
+            second = [short_form_for(rng, fam, st) for st in states]
+            if rng.random() < 0.25:
+                second[rng.randrange(n)] = {"name": name_notation(rng, fam, T, rng.choice([t for t in acceptable(fam, T) if cls_of(fam, t)]))}
+        except Reject:
+            continue
+        order = list(range(n))
+        if ckind == "dict" and rng.random() < 0.5:
+            rng.shuffle(order)
+        if ckind == "dict":
+            srcs = [{"op": "set", "items": [[keys[i], first[i]] for i in range(n)], "via": rng.choice(["argv", "config"])},
+                    {"op": "set", "items": [[keys[i], second[i]] for i in order], "via": rng.choice(["argv", "config"])}]
+            if rng.random() < 0.5:
+                i = rng.randrange(n)
+                try:
+                    st = ref_container(fam, T, ckind, srcs, final=False)
+                    srcs.append({"op": "key", "key": keys[i], "raw": short_form_for(rng, fam, st[keys[i]])})
+                except Reject:
+                    pass
+        else:
+            srcs = [{"op": "set", "items": list(first), "via": rng.choice(["argv", "config"])},
+                    {"op": "set", "items": list(second), "via": rng.choice(["argv", "config"])}]
+            if rng.random() < 0.5:
+                try:
+                    st = ref_container(fam, T, ckind, srcs, final=False)
+                    ps = [p for p in target_params(fam, st[-1]["t"]) if p["ty"][0] == "scalar" and p["ty"][1] != "str"]
+                    if ps:
+                        p = rng.choice(ps)
+                        srcs.append({"op": "last", "param": p["name"], "raw": rng.choice(SCALARS[p["ty"][1]])})
+                except Reject:
+                    pass
+        out.append((fam, ckind, srcs))
+    return out
+
+
+def ref_container(fam, T, ckind, sources, final=True):
+    state = None
+    for s in sources:
+        if s["op"] == "set":
+            if ckind == "dict":
+                state = {k: ref_apply(fam, T, (state or {}).get(k), raw) for k, raw in s["items"]}
+            else:
+                prev = state if isinstance(state, list) and len(state) == len(s["items"]) else [None] * len(s["items"])
+                state = [ref_apply(fam, T, prev[i], raw) for i, raw in enumerate(s["items"])]
+        elif s["op"] == "key":
+            state = dict(state or {})
+            state[s["key"]] = ref_apply(fam, T, state.get(s["key"]), s["raw"])
+        else:
+            state = list(state)
+            state[-1] = ref_dotted(fam, T, state[-1], [s["param"]], s["raw"])
+    if not final or state is None:
+        return state
+    if ckind == "dict":
+        return {k: ref_finalize(fam, v) for k, v in state.items()}
+    return [ref_finalize(fam, v) for v in state]
+
+
+def container_argv(fam, ckind, sources):
+    opt = "table" if ckind == "dict" else "elems"
+    argv = []
+    for s in sources:
+        if s["op"] == "set":
+            j = {k: raw_to_json(fam, r) for k, r in s["items"]} if ckind == "dict" else [raw_to_json(fam, r) for r in s["items"]]
+            argv += ["--config", json.dumps({opt: j})] if s["via"] == "config" else ["--" + opt, json.dumps(j)]
+        elif s["op"] == "key":
+            j = raw_to_json(fam, s["raw"])
+            argv.append("--%s.%s=%s" % (opt, s["key"], j if isinstance(j, str) else json.dumps(j)))
+        else:
+            argv.append("--%s.%s=%s" % (opt, s["param"], text_of(s["raw"])))
+    return argv
+
+
+def container_multi_problem(fam, ckind, sources):
+    """run the sequence on a real parser; returns (description | None, instantiated-something)"""
+    from typing import Dict, List
+
+    from jsonargparse import ArgumentError, ArgumentParser
+
+    T = "Base"
+    mod = module_for(fam)
+    base = getattr(mod, T)
+    parser = ArgumentParser(exit_on_error=False)
+    parser.add_argument("--config", action="config")
+    parser.add_argument("--table", type=Dict[str, base])
+    parser.add_argument("--elems", type=List[base])
+    argv = container_argv(fam, ckind, sources)
+    try:
+        exp = ("ok", ref_container(fam, T, ckind, sources))
+    except Reject as ex:
+        exp = ("reject", str(ex))
+    err = io.StringIO()
+    try:
+        with contextlib.redirect_stderr(err):
+            cfg = parser.parse_args(argv)
+    except ArgumentError as ex:
+        if exp[0] == "ok":
+            return "a valid multi-source %s-of-class configuration is rejected: %s" % (ckind, str(ex).replace("\n", " | ")[:300]), False
+        return None, False
+    except Exception as ex:  # noqa: BLE001
+        return "parsing a %s-of-class configuration raises %s: %s" % (ckind, type(ex).__name__, str(ex)[:200]), False
+    if exp[0] == "reject":
+        return "a %s-of-class configuration that must be rejected (%s) is accepted" % (ckind, exp[1]), False
+    got = cfg.get("table" if ckind == "dict" else "elems")
+    if ckind == "dict":
+        got_c = {k: canon_real(v) for k, v in (got or {}).items()}
+        want_c = {k: canon_state(fam, v) for k, v in exp[1].items()}
+        order = list(exp[1])
+    else:
+        got_c = [canon_real(v) for v in (got or [])]
+        want_c = [canon_state(fam, v) for v in exp[1]]
+        order = list(range(len(exp[1])))
+    if got_c != want_c:
+        bad = [k for k in order if (got_c.get(k) if ckind == "dict" else (got_c[k] if k < len(got_c) else None)) != (want_c[k])]
+        k = bad[0] if bad else None
+        g = (got_c.get(k) if ckind == "dict" else (got_c[k] if k is not None and k < len(got_c) else None)) if k is not None else got_c
+        return "%s-of-class: entry %r does not keep its own class / init_args across sources: got %s expected %s" % (
+            ckind, k, json.dumps(g, sort_keys=True)[:260], json.dumps(want_c[k] if k is not None else want_c, sort_keys=True)[:260]), False
+    mod.LOG.clear()
+    try:
+        init = parser.instantiate_classes(cfg)
+    except Exception as ex:  # noqa: BLE001
+        mod.LOG.clear()
+        return "instantiate_classes fails on an accepted %s-of-class configuration: %s: %s" % (ckind, type(ex).__name__, str(ex)[:200]), False
+    n_log = len(mod.LOG)
+    mod.LOG.clear()
+    objs = init.get("table" if ckind == "dict" else "elems")
+    items = [(k, objs[k], exp[1][k]) for k in order]
+    want_n = sum(len(expected_ctors(fam, st)) for _, _, st in items)
+    if n_log != want_n:
+        return "%s-of-class: %d constructor calls, expected %d (one per spec)" % (ckind, n_log, want_n), True
+    for k, obj, st in items:
+        tname = ("defs2." if type(obj).__module__.endswith(".defs2") else "") + type(obj).__name__
+        if canonical(fam, tname) != canonical(fam, target_class(fam, st["t"])):
+            return "%s-of-class: entry %r was built as %s, the configuration names %s" % (ckind, k, type(obj).__name__, target_class(fam, st["t"])), True
+        if cls_of(fam, st["t"]):
+            for p in target_params(fam, st["t"]):
+                v = st["ia"][p["name"]]
+                if not isinstance(v, dict) and lit(getattr(obj, p["name"])) != lit(v):
+                    return "%s-of-class: entry %r has %s=%r, configured %r" % (ckind, k, p["name"], getattr(obj, p["name"]), v), True
+    return None, bool(n_log)
+
+
+def run_container_multi(ctx: Ctx, fam, ckind, sources, origin):
+    ctx.count()
+    ctx.hist("container_multi", ckind + "/%d sources" % len(sources))
+    dev, built = container_multi_problem(fam, ckind, sources)
+    if dev is not None:
+        ctx.violation("Dict/List-of-class argument with several sources: " + dev,
+                      {"kind": "container_multi", "origin": origin, "family": fam, "ckind": ckind, "sources": sources,
+                       "argv": container_argv(fam, ckind, sources), "module": family_src(fam)})
+    elif built:
+        ctx.nontrivial(json.dumps(["container_multi", family_src(fam), ckind, container_argv(fam, ckind, sources)]))
+
+
 def run(ctx: Ctx):
     repo_python_path()
     ctx.rule = ("case = (generated class family as a real module: Base (sometimes abstract), SubA/SubB/SubC adding, overriding and dropping "
@@ -1392,8 +1582,12 @@ def run(ctx: Ctx):
     try:
         from ..lib import corpus as corpus_mod
 
-        corpus_cases = [(c["family"], c["declared"], c["sources"]) for c in corpus_mod.load(ctx.prop) if "sources" in c]
+        corpus_all = corpus_mod.load(ctx.prop)
+        corpus_cases = [(c["family"], c["declared"], c["sources"]) for c in corpus_all if "sources" in c]
         bad = run_cases(ctx, corpus_cases, "corpus")
+        for c in corpus_all:
+            if "container" in c:
+                run_container_multi(ctx, c["family"], c["container"]["ckind"], c["container"]["sources"], "corpus")
         n_fam = ctx.budget(40, 450) * (2 if ctx.search_boost > 1 else 1)
         cases = []
         fams = []
@@ -1425,6 +1619,8 @@ def run(ctx: Ctx):
                 metamorphic(ctx, fam, T, ctx.rng)
             for valid, ia in container_cases(ctx.rng, fam):
                 run_container(ctx, fam, valid, ia)
+            for f2, ckind, srcs in container_multi_cases(ctx.rng, fam):
+                run_container_multi(ctx, f2, ckind, srcs, "generated")
         ctx.extra["cases"] = {"corpus": len(corpus_cases), "generated": len(cases), "families": n_fam}
         ctx.extra["correspondence_disagreements"] = bad
 
@@ -1462,6 +1658,12 @@ def replay(ctx: Ctx, body):
             print("explicit:", build_argv(fam, rp["explicit"]), "->", json.dumps(a.get("cfg"))[:400])
             print("variant :", build_argv(fam, rp["variant"]), "->", json.dumps(b.get("cfg"))[:400])
             return 1 if (a["kind"], a.get("cfg")) != (b["kind"], b.get("cfg")) else 0
+        if rp.get("kind") == "container_multi":
+            print(family_src(rp["family"]))
+            print("--table: Dict[str, Base], --elems: List[Base]; parse_args(%r)" % (container_argv(rp["family"], rp["ckind"], rp["sources"]),))
+            dev, _ = container_multi_problem(rp["family"], rp["ckind"], rp["sources"])
+            print("deviation:", dev)
+            return 1 if dev else 0
         if rp.get("kind") == "container":
             print("value:", json.dumps(rp["value"])[:600])
             from jsonargparse import ArgumentError, ArgumentParser
